@@ -2753,7 +2753,7 @@ func (d *Data) ServeHTTP(uuid dvid.UUID, ctx *datastore.VersionedCtx, w http.Res
 			return
 		}
 		w.Header().Set("Content-Type", "application/json")
-		fmt.Fprintf(w, string(jsonBytes))
+		fmt.Fprint(w, string(jsonBytes))
 
 	case "specificblocks":
 		// GET <api URL>/node/<UUID>/<data name>/specificblocks?blocks=x,y,z,x,y,z...
@@ -2871,7 +2871,7 @@ func (d *Data) handleLabel(ctx *datastore.VersionedCtx, w http.ResponseWriter, r
 	}
 	w.Header().Set("Content-type", "application/json")
 	jsonStr := fmt.Sprintf(`{"Label": %d}`, label)
-	fmt.Fprintf(w, jsonStr)
+	fmt.Fprint(w, jsonStr)
 
 	timedLog.Infof("HTTP GET label at %s (%s)", parts[4], r.URL)
 }
